@@ -237,7 +237,7 @@ def main(ck, tier, w):
     def big(i):
         r0 = random.Random('%d-c15big-%d' % (seed, i))
         n = r0.choice([4, 6, 9])
-        times = [r0.choice([1, 2 ** 32 - 1, 2 ** 31, 5, 3000000000]) for _ in range(n)]
+        times = [r0.choice([1, 2 ** 32 - 1, 2 ** 31, 5, 3000000000, 0, 0]) for _ in range(n)]
         coin = r0.choice(['bitcoin', 'bitcoin', 'litecoin', 'dogecoin'])
         blocks, prev = [], b'\0' * 32
         for h in range(n):
@@ -292,7 +292,7 @@ def main(ck, tier, w):
                 txs.append({'ver': 1, 'ins': first + [{'txid': r0.randbytes(32), 'idx': 0, 'sig': r0.randbytes(r0.choice([0, 10, 10, 90])), 'seq': 0}] * r0.randrange(1, 4),
                             'outs': [{'val': r0.choice([0, 7, 500, 500, 999]), 'spk': r0.choice([spk(t, r0) for t in LABEL] + [b'\x51', b'', b'\x00\x14' + r0.randbytes(20)])}
                                      for _ in range(r0.randrange(0, 4))], 'lock': j})
-            b = datadir.mk_block(prev, txs, t=r0.choice([1000, 5000, 4000, 2 ** 31 - 5, 77, 77]), nonce=k)
+            b = datadir.mk_block(prev, txs, t=r0.choice([1000, 5000, 4000, 2 ** 31 - 5, 77, 77, 0]), nonce=k)
             blocks.append(b)
             prev = b['hash']
         d = write_dir(w, blocks, h0)
@@ -359,5 +359,5 @@ def main(ck, tier, w):
     if probs:
         ck.violation('wide chain: ' + '; '.join(probs[:4]), {'scenario': '66 000 transactions in a block, 65 600 inputs / outputs / witness items',
                                                              'observed': r.brief(), 'tags': []})
-    ck.assumptions += ['timestamps >= 1', 'a coinbase has at least one output', 'total volume below 2^64',
+    ck.assumptions += ['a coinbase has at least one output', 'total volume below 2^64',
                        'the order of the per-type section is not a figure (HashMap iteration order)']
